@@ -1,14 +1,20 @@
 """C15 (partial) - hash length accounting stays exact across the 2^29 / 2^32 byte totals.
 
 Decided (IR, every built *_ctx_*.c unit): the running total and the padded bit length are computed without
-narrowing below 64 bits.  NOT decided: the digest itself (C01) and the manager's lane-word packing of block
-counts (a value-range property of the assembly).
+narrowing below 64 bits.  NOT decided: the digest itself (C01) and the flush side of the managers' lane-word packing.
 
 R15.1 the member total_length of every hash context struct is a 64-bit integer (DWARF).
 R15.2 every store to total_length is the constant 0 or `load total_length + zext(len)` as a 64-bit add; no value
       derived from a load of total_length is truncated below 64 bits except after masking with a constant that
       fits the narrower type (the block-offset computation); the *8 / <<3 that forms the bit length is a 64-bit
       operation and reaches the stored length field of the padding.
+R15.6 no 32-bit sum with the caller's length: in the ctx layer no i32 add / mul / shl has an operand that is the raw
+      `len` argument (or what is left of it after subtracting consumed bytes): `partial + len > BLOCK` wraps for
+      len near 2^32 and then copies 4 GiB into the partial-block buffer; the layer bounds len only by
+      comparing it (`len < BLOCK - partial`) or widens first.
+R15.7 lane-word head-room: each assembly submit manager loads job->len (a block count, at most (2^32-1) >> log2
+      (block size) after the ctx layer's shift) and packs it as (len << k) | lane into a 32-bit lens[] word; k must
+      not exceed log2(block size), or block counts the API admits no longer fit and the job is cut short.
 R15.4 in every assembly manager the minimum over the packed lane-length words is an unsigned minimum (a single
       submit of 2^31 bytes or more sets bit 31 of its word).
 R15.5 the store of the bit length into the padding that the C source asks for survives in the object built with the
@@ -69,10 +75,16 @@ def upper_bound(F, v, depth=0):
         return min((1 << max(int(a).bit_length(), int(c).bit_length())) - 1, top)
     if I.op == "lshr":
         c = F.const_int(I.ops[1])
-        a = upper_bound(F, I.ops[0], depth + 1)
+        a = min(upper_bound(F, I.ops[0], depth + 1), top)
         if c is not None and a != INF:
             return int(a) >> c
-        return min(a, top)
+        return a
+    if I.op == "call" and getattr(F, "module", None) is not None:
+        G = F.module.functions.get(I.callee or "")
+        if G is not None and not G.decl and depth < 8:
+            rets = [R for R in G.all_insts() if R.op == "ret" and R.ops]
+            if rets:
+                return min(max(upper_bound(G, R.ops[0], depth + 8) for R in rets), top)
     if I.op == "shl":
         c = F.const_int(I.ops[1])
         a = upper_bound(F, I.ops[0], depth + 1)
@@ -98,7 +110,7 @@ def run(chk):
     chk.trusted += ["clang-14 -O0 + mem2reg IR carries the C integer conversions explicitly (zext/trunc)", "DWARF member types"]
     chk.assumptions += ["only the ctx layer is decided; the digest (C01) and the assembly managers' block-count packing are not"]
     chk.floor("ctx units", len(mods), 28)
-    n_adds = n_len_stores = 0
+    n_adds = n_len_stores = n_raw_fn = n_joblen = 0
     for src, M in sorted(mods.items()):
         # ---- R15.1
         found = False
@@ -145,6 +157,55 @@ def run(chk):
                     chk.obligation("R15.2-store", ok, key=(src, F.name, I.id), sample={"unit": src, "function": F.name, "line": I.line})
                     if not ok:
                         chk.finding(Finding("R15.2", src, F.name, "total_length-update", "update of total_length is not a 64-bit `total_length + zext(len)`: %s" % why, loc=I.loc()))
+        # ---- R15.7 (IR half): the block count handed to the manager is bounded by the shift in the ctx layer
+        log2blk = 7 if src.startswith("sha512_mb/") else 6
+        for F in M.defined():
+            for I in F.all_insts():
+                if I.op != "store":
+                    continue
+                fld = F.field(I.ops[1])
+                if not (fld and fld[1] and len(fld[1]) >= 2 and fld[1][-1][1] == "len" and fld[1][-2][1] == "job"):
+                    continue
+                ub = upper_bound(F, I.ops[0])
+                ok = ub <= (0xFFFFFFFF >> log2blk)
+                n_joblen += 1
+                chk.obligation("R15.7-ctx", ok, key=(src, F.name, I.id), sample={"unit": src, "function": F.name, "line": I.line, "upper_bound": ub if ub != INF else "unbounded"})
+                if not ok:
+                    chk.finding(Finding("R15.7", src, F.name, "job-len-bound", "the block count stored into job.len is not bounded by 2^%d (bound found: %s): the managers pack it into a 32-bit lane word above the lane index" % (32 - log2blk, ub if ub != INF else "none"), loc=I.loc()))
+        # ---- R15.6 raw 32-bit length in wrapping arithmetic
+        for F in M.defined():
+            la = [n for n, a in enumerate(F.args) if a.get("name") == "len" and a.get("ty") == "i32"]
+            if not la:
+                continue
+            raw = set()
+            rawarg = la[0]
+
+            def is_raw(v):
+                if isinstance(v, dict):
+                    if v.get("k") == "a":
+                        return v.get("n") == rawarg
+                    if v.get("k") == "i":
+                        return v["id"] in raw
+                return False
+            changed = True
+            insts = list(F.all_insts())
+            while changed:
+                changed = False
+                for I in insts:
+                    if I.id in raw or I.ty != "i32":
+                        continue
+                    if I.op == "sub" and is_raw(I.ops[0]):
+                        raw.add(I.id)
+                        changed = True
+                    elif I.op == "phi" and I.ops and all(is_raw(o) or (o.get("k") == "i" and o["id"] == I.id) for o in I.ops):
+                        raw.add(I.id)
+                        changed = True
+            n_raw_fn += 1
+            for I in insts:
+                if I.ty == "i32" and I.op in ("add", "mul", "shl") and any(is_raw(o) for o in I.ops[:2]):
+                    chk.obligation("R15.6", False, key=(src, F.name, I.id))
+                    chk.finding(Finding("R15.6", src, F.name, "len-32bit-" + I.op, "a 32-bit %s takes the caller's length (up to 2^32-1) as an operand: the result wraps for long inputs and the bound or copy length derived from it is wrong" % I.op, loc=I.loc()))
+            chk.obligation("R15.6", True, key=(src, F.name), sample={"unit": src, "function": F.name, "values_carrying_the_raw_length": len(raw) + 1})
         # ---- R15.2 taint from loads of total_length
         tainted = {}      # (fname, inst id | ('a', n)) -> origin description
         work = []
@@ -247,10 +308,97 @@ def run(chk):
                     chk.obligation("R15.4", ok, key=(name, i.addr), sample={"function": name, "insn": i.text.strip()})
                     if not ok:
                         chk.finding(Finding("R15.4", f.obj.name, name, "signed-min", "`%s`: the minimum over the packed lane-length words must be unsigned; a submit of 2^31 bytes or more sets the top bit of its word and a signed minimum then picks the wrong lane" % i.text.strip(), loc=f.obj.line_of(f.sec, i.addr)))
+    # ---- R15.7 (object code): head-room of the packed lane word
+    import absint
+    import c19
+    from x86 import PARENT
+    joblen = {}
+    for src, M in mods.items():
+        algo = src.split("_mb/")[0]
+        for sn, ds in M.distructs.items():
+            if sn == "ISAL_%s_JOB" % algo.upper():
+                for m in ds["members"]:
+                    if m["name"] == "len":
+                        joblen[algo] = (m["off"], m["size"])
+    n_pack = 0
+    for key, name in lib.entry_list:
+        mm = re.match(r"^_(sha1|sha256|sha512|md5|sm3)_mb_mgr_submit_\w+$", name)
+        if not mm:
+            continue
+        algo = mm.group(1)
+        if algo not in joblen:
+            chk.broke("no DWARF layout of the %s job struct (member len)" % algo)
+            continue
+        loff, lsz = joblen[algo]
+        log2blk = 7 if algo == "sha512" else 6
+        f = lib.func(key)
+        p1 = absint.Interp(lib, lambda t, c=None: c19.summary_of(lib, t, c), keep_regs=True).run(f)
+        tags_in = {f.entry: {}}
+        work = [f.entry]
+        packs = []
+        seen_store = set()
+        guard = 0
+        while work:
+            b = work.pop()
+            guard += 1
+            if guard > 20000:
+                chk.broke("%s: lane-word dataflow did not converge" % name)
+                break
+            st = dict(tags_in[b])
+            for i in f.blocks[b]:
+                m = p1.maddr.get(i.addr) if i.mem >= 0 else None
+                op = i.op
+                new = {}
+                if m and op in ("MOV32rm",) and m[0][0] == "init" and m[0][1] == "RSI" and m[0][2] == loff and not m[1]:
+                    new[PARENT[i.reg(0)]] = 0
+                elif i.mem < 0 and op in ("SHL64ri", "SHL32ri") and PARENT.get(i.reg(0)) in st:
+                    new[PARENT[i.reg(0)]] = st[PARENT[i.reg(0)]] + ((i.imm(2) or 0) & 63)
+                    if op == "SHL32ri":
+                        packs.append((i, new[PARENT[i.reg(0)]], 4))
+                elif i.mem < 0 and op in ("OR64rr", "OR32rr") and PARENT.get(i.reg(1)) in st and PARENT.get(i.reg(2)) not in st:
+                    new[PARENT[i.reg(0)]] = st[PARENT[i.reg(1)]]
+                elif i.mem < 0 and op in ("MOV64rr", "MOV32rr") and PARENT.get(i.reg(1)) in st:
+                    new[PARENT[i.reg(0)]] = st[PARENT[i.reg(1)]]
+                elif m and i.writes_mem_operand() and op in ("MOV32mr", "MOV64mr"):
+                    src_ = i.ops[i.mem + 5] if i.mem + 5 < len(i.ops) else None
+                    r = PARENT.get(src_[1]) if src_ and src_[0] == "r" else None
+                    fr = absint.roots(m[0])
+                    if r in st and fr and "RDI" in {x for x in fr if isinstance(x, str)} and i.addr not in seen_store:
+                        seen_store.add(i.addr)
+                        packs.append((i, st[r], i.memsize() or 4))
+                for r_ in list(i.explicit_defs()) + list(i.idefs):
+                    pr = PARENT.get(r_)
+                    if pr in st and pr not in new:
+                        del st[pr]
+                st.update(new)
+            for s_ in f.succ.get(b, []):
+                old = tags_in.get(s_)
+                if old is None:
+                    tags_in[s_] = dict(st)
+                    work.append(s_)
+                else:
+                    j = {r: v for r, v in old.items() if st.get(r) == v}
+                    if j != old:
+                        tags_in[s_] = j
+                        if s_ not in work:
+                            work.append(s_)
+        stores = [p_ for p_ in packs if p_[0].writes_mem_operand()]
+        if not stores:
+            chk.broke("%s: no store of the packed job length into the manager state was recognised" % name)
+            continue
+        for (i, k, width) in packs:
+            n_pack += 1
+            ok = (32 - log2blk) + k <= 8 * width
+            chk.obligation("R15.7", ok, key=(name, i.addr), sample={"function": name, "insn": i.text.strip(), "shift": k, "word_bits": 8 * width, "max_block_count_bits": 32 - log2blk})
+            if not ok:
+                chk.finding(Finding("R15.7", f.obj.name, name, "lane-word-headroom", "`%s`: job->len (up to 2^%d blocks for a submit of 2^32-1 bytes) shifted left by %d does not fit the %d-bit lane word: a single long submit is cut to its low block-count bits and the digest covers only part of the data" % (i.text.strip(), 32 - log2blk, k, 8 * width), loc=f.obj.line_of(f.sec, i.addr)))
+    chk.floor("packed lane-word stores / 32-bit shifts judged", n_pack, 20)
     # ---- R15.5 (object code): the bit-length store survives optimisation
     import mhrules
     libc = x86.Library([u for u in allunits if u["kind"] == "c" and CTX_UNIT.match(u["src"])])
     n_surv = mhrules.length_store_survives(chk, "R15.5", libc, mods)
+    chk.floor("stores of a block count into job.len", n_joblen, 60)
+    chk.floor("ctx functions with a 32-bit len argument", n_raw_fn, 28)
     chk.floor("bit-length stores checked for survival in the object code", n_surv, 28)
     chk.floor("assembly managers scanned for the lane minimum", n_mgr, 40)
     chk.floor("lane-minimum instructions", n_min, 60)
